@@ -158,7 +158,12 @@ def run(ctx, rep):
               ["--side-by-side", "--width", "40"], ["--side-by-side", "--wrap-max-lines", "0", "--width", "80", "--max-line-length", "3000"],
               ["--line-numbers"], ["--navigate"], ["--hyperlinks"], ["--width", "20"], ["--max-line-length", "0"],
               ["--side-by-side", "--max-line-length", "0"], ["--diff-so-fancy"], ["--color-only"], ["--raw"], ["--width", "variable"],
-              ["--side-by-side", "--line-fill-method", "spaces"], ["--tabs", "4"], ["--keep-plus-minus-markers"]]
+              ["--side-by-side", "--line-fill-method", "spaces"], ["--tabs", "4"], ["--keep-plus-minus-markers"],
+              # a commit link target configured: hash-like words of a passed-through line are linked only on a terminal
+              ["--hyperlinks", "--hyperlinks-commit-link-format", "https://example.com/c/{commit}"],
+              ["--hyperlinks", "--hyperlinks-commit-link-format", "https://example.com/c/{commit}", "--side-by-side"]]
+    HASHY = ["Merge: 1a2b3c4 5d6e7f8", "Revert \"x\" (deadbeef12)", "see 0123456789abcdef0123456789abcdef01234567 for details",
+             "\x1b[33mcherry picked from commit abcdef1234567\x1b[m", "    fixup! 9fceb02 typo"]
     pjobs = []
     for _ in range(ctx.n(25, 400)):
         tl = []
@@ -167,7 +172,9 @@ def run(ctx, rep):
             if rng.random() < 0.3:
                 t = t + " " + " ".join(rng.choice(WORDS) for _ in range(rng.randint(15, 40)))     # 100-300 columns
             tl.append(t)
-        for mode in ([rng.choice(PMODES) for _ in range(4)] if ctx.quick() else PMODES):
+        if rng.random() < 0.5:
+            tl.insert(rng.randrange(len(tl) + 1), rng.choice(HASHY))
+        for mode in ([rng.choice(PMODES) for _ in range(4)] + [PMODES[-2]] if ctx.quick() else PMODES):
             pjobs.append((["--no-gitconfig"] + mode, tl))
     def pone(j):
         args, tl = j
